@@ -32,7 +32,10 @@ def _vector_angle_degrees(v1, v2):
     float
       angle in degrees
     """
-    angle = degrees(arccos(dot(u_vect(v1), u_vect(v2))))
+    # rounding can push the dot product of two (anti)parallel unit
+    # vectors slightly outside of [-1, 1], for which arccos is NaN
+    cos_angle = max(-1.0, min(1.0, dot(u_vect(v1), u_vect(v2))))
+    angle = degrees(arccos(cos_angle))
     return angle
 
 # this is the numba implementation
